@@ -57,7 +57,7 @@ DEFAULT = {"loop": None, "output": None, "namespace": None, "depth": 30}
 
 class _Sys:
     def getsizeof(self, obj, default=1):
-        if isinstance(obj, str):
+        if issubclass(type(obj), str):  # type(), not isinstance(): strict undefined objects reject __class__
             return 1 + len(obj)
         return 1
 
@@ -127,6 +127,84 @@ for _kind in KINDS:
         _nm, _f = _mk(_kind, _s)
         globals()[_nm] = _f
         CONDITIONS.append({"fn": _nm, "quick": 80 if (_kind, _s) in _QUICK else None, "thorough": 300})
+
+
+# ---- strict undefined types: the limit accounting must not trip over an undefined local -------------------------------
+from liquid import StrictDefaultUndefined, StrictUndefined  # noqa: E402
+
+
+class SEnv(Env):
+    pass
+
+
+class SDEnv(Env):
+    pass
+
+
+S_ENVS = {"strict": SEnv(extra=True, undefined=StrictUndefined, loader=CachingDictLoader(PARTIALS, auto_reload=False)),
+          "strictdefault": SDEnv(extra=True, undefined=StrictDefaultUndefined, loader=CachingDictLoader(PARTIALS, auto_reload=False))}
+S_SKEL = {
+    "assign_undefined": "{% assign t = nothing.here %}<{{ v }}>{% assign w = v %}{% capture c %}{{ w }}{% endcapture %}{{ c | size }}",
+    "assign_undefined_render": "{% assign t = missing %}{% render 'p', v: 1 %}{% for i in xs %}{% assign q = i %}{% endfor %}{{ v }}",
+}
+ST = {(e, k): S_ENVS[e].from_string(v) for e in S_ENVS for k, v in S_SKEL.items()}
+
+
+def _mk_strict(ename, kind, skel):
+    nm = "c08_%s_%s_%s" % (ename, kind, skel)
+
+    def f(n: int, L1: int, L2: int) -> bool:
+        """
+        pre: 0 <= n <= 2
+        pre: 0 <= L1 <= L2 <= 40
+        post: _
+        """
+        if excluded(nm, locals()):
+            return True
+        # CrossHair's isinstance() does not consult __class__, which is exactly how a strict undefined object
+        # reacts to being inspected: these conditions run untraced on concrete values
+        n, L1, L2 = cint(n, 0, 2), cint(L1, 0, 40), cint(L2, 0, 40)
+        return finish(untraced(lambda: case(n, L1, L2)))
+
+    def case(n, L1, L2):
+        env = S_ENVS[ename]
+        t = ST[(ename, skel)]
+        data = {"xs": list(range(n)), "v": "é"}
+
+        def run1(L):
+            for k in KINDS:
+                setattr(type(env), ATTR[k], DEFAULT[k])
+            if L is not None:
+                setattr(type(env), ATTR[kind], L)
+            ctxmod.sys = _Sys()
+            try:
+                try:
+                    return ("ok", t.render(**data))
+                except ResourceLimitError:
+                    return ("limit", None)
+                except LiquidError as e:
+                    return ("err", type(e).__name__)
+            finally:
+                ctxmod.sys = _real_sys
+                for k in KINDS:
+                    setattr(type(env), ATTR[k], DEFAULT[k])
+        full = run1(None)
+        r1 = run1(L1)
+        r2 = run1(L2)
+        ok = (r1 == full or r1[0] == "limit") and (r2 == full or r2[0] == "limit")
+        if r1[0] == "ok":
+            ok = ok and r2 == r1
+        return ok
+    f.__name__ = f.__qualname__ = nm
+    return nm, f
+
+
+for _e in S_ENVS:
+    for _kind in ("namespace", "output", "loop"):
+        for _s in S_SKEL:
+            _nm, _f = _mk_strict(_e, _kind, _s)
+            globals()[_nm] = _f
+            CONDITIONS.append({"fn": _nm, "quick": 60 if _kind == "namespace" else None, "thorough": 200, "sel_only": True})
 
 
 # ---- block nesting limit (parse time; sources are concrete, so depth is a selector) -----------------
